@@ -107,6 +107,10 @@ def absorb(rep, jobs, results, accepted_lengths=True):
                     got = replay.call1(['parse', what, N, hexs(s['accepted_input'])])
                     if got == 'Ok ' + hexs(s['accepted_input']):
                         rep.replayed += 1
+                    elif got.startswith('PANIC'):
+                        rep.replayed += 1
+                        rep.violation('%s::from_bytes:panic' % what, '%s::<%d>::from_bytes panics on a well-formed input (a sample of the accepting path): %s' % (what, N, got),
+                                      {'replay_request': ['parse', what, N, hexs(s['accepted_input'])[:80] + '...'], 'dev': got})
                     else:
                         rep.note_inconclusive('translator validation failed (%s): mirsym accepts an input the real code answers with %s' % (r['tag'], got[:60]))
         elif r['ok'] > 0:
